@@ -125,6 +125,116 @@ def _removal_loop(prog, rem):
     return True
 
 
+def _compaction_loop(prog, rem):
+    """the other written-out form of retain: `for i in 0..len { if list[i].address != address { list[kept] = list[i]; kept += 1 } } list.truncate(kept)`.
+    True only when: the list is changed by nothing but `list[kept] = list[i]` under the `!=` test and one `truncate(kept)` behind the loop; i runs over
+    0..len in steps of one; kept starts at 0 and is stepped once, right behind the copy."""
+    calls = list(rem.calls())
+    muts = [(b, t, c) for b, t, c in calls if any(a.startswith("&mut") for a in t.get("arg_tys", []))]
+    imuts = [(b, t) for b, t, c in muts if c and re.search(r"Vec<T, A> as core::ops::index::IndexMut<I>>::index_mut$", c)]
+    truncs = [(b, t) for b, t, c in muts if c and c.endswith("Vec::<T, A>::truncate")]
+    others = [c for b, t, c in muts if not (c and (re.search(r"IndexMut<I>>::index_mut$", c) or c.endswith("Vec::<T, A>::truncate") or re.search(r"Range<A>>::next$", c)))]
+    if len(imuts) != 1 or len(truncs) != 1 or others:
+        return False
+    for b in rem.live_blocks():
+        for s in rem.stmts(b):
+            if s["k"] == "assign" and s["p"]["l"] == 1 and s["p"].get("pr"):
+                return False
+    lps = kit.loops(rem)
+    ib, it = imuts[0]
+    inl = [(h, body) for h, (body, l) in lps.items() if ib in body]
+    if len(inl) != 1 or len(lps) != 1:
+        return False
+    head, body = inl[0]
+    th = rem.term(head)
+    if not (th["k"] == "call" and re.search(r"Range<A>>::next$", callee_of(th) or "")):
+        return False
+    vplace = kit.strip_refs(rem.expr(it["args"][0], 6, stop={"named"}))
+    ke = kit.strip_refs(rem.expr(it["args"][1], 3, stop={"named"}))
+    if ke[0] != "local":
+        return False
+    # the range 0..len(list)
+    itl = kit.strip_refs(rem.expr(th["args"][0], 4, stop={"named"}))
+    rng = None
+    if itl[0] == "local":
+        sd = rem.single_def(itl[1])
+        if sd and sd[0] == "stmt":
+            rng = rem.rvalue_expr(sd[3]["r"], 8, stop={"named"})
+        elif sd and sd[0] == "call":
+            rng = ("call", callee_of(sd[3]), tuple(rem.expr(a_, 8, stop={"named"}) for a_ in sd[3]["args"]))
+    while rng is not None and rng[0] == "call" and str(rng[1]).endswith("IntoIterator>::into_iter") and len(rng[2]) == 1:
+        rng = rng[2][0]
+    def strip_names(e):
+        return tuple(strip_names(x) if isinstance(x, tuple) else x for x in (e[:2] if e and e[0] in ("local", "arg") else e))
+    ln = ("call", "alloc::vec::Vec::<T, A>::len", (("ref", strip_names(vplace)),))
+    if not (rng is not None and rng[0] == "agg" and len(rng[2]) == 2 and rng[2][0] == ("const", 0) and strip_names(rng[2][1]) == ln):
+        return False
+    # the loop variable
+    ivars = [l for l, ds in rem.defs().items() if len(ds) == 1 and ds[0][0] == "stmt" and ds[0][1] in body and rem.locals[l].get("name")
+             and "Some" in expr_str(rem.rvalue_expr(ds[0][3]["r"], 4), 80) and any(x[0] == "call" and x[1] == callee_of(th) for x in expr_walk(rem.rvalue_expr(ds[0][3]["r"], 4)))]
+    if len(ivars) != 1:
+        return False
+    ie = ("local", ivars[0])
+    # kept: 0 in front of the loop, + 1 once inside
+    ds = rem.defs().get(ke[1], [])
+    zero = [d for d in ds if d[0] == "stmt" and rem.rvalue_expr(d[3]["r"], 4, stop={"named"}) == ("const", 0) and d[1] not in body and rem.dominates(d[1], head)]
+    steps = [d for d in ds if d[0] == "stmt" and d[1] in body]
+    if len(ds) != 2 or len(zero) != 1 or len(steps) != 1:
+        return False
+    se = rem.rvalue_expr(steps[0][3]["r"], 6, stop={"named"})
+    if not (se[0] in ("bin", "checked") and se[1] == "Add" and se[2][:2] == ke[:2] and se[3] == ("const", 1)):
+        return False
+    # the copy `list[kept] = list[i]`: the place index_mut hands back is assigned the element at i
+    dst = it["dest"]["l"]
+    copies = [(b, s) for b, i_, s in rem.assigns() if s["p"]["l"] == dst and s["p"].get("pr") == ["*"]]
+    if len(copies) != 1:
+        return False
+    src = strip_names(kit.strip_refs(rem.rvalue_expr(copies[0][1]["r"], 8, stop={"named"})))
+    want_src = ("call", "<alloc::vec::Vec<T, A> as core::ops::index::Index<I>>::index", (("ref", strip_names(vplace)), ie))
+    if src != want_src:
+        return False
+    # ... under `list[i].address != address`, and the step of kept behind the copy on the same edge
+    succ = rem.succ_map()
+    guard = None
+    for d in rem.dominators().get(ib, ()):
+        sw = rem.term(d)
+        if d == ib or sw["k"] != "switch":
+            continue
+        c = rem.expr(sw["a"], 8, stop={"named"})
+        if c[0] != "bin" or c[1] not in ("Eq", "Ne"):
+            continue
+        toward = [x for x in succ[d] if x == ib or rem.dominates(x, ib)]
+        if len(toward) != 1:
+            continue
+        allv = [v for v, x in sw["targets"]]
+        vals = [v for v, x in sw["targets"] if x == toward[0]]
+        truth = True if (toward[0] == sw["otherwise"] and not vals and allv == [0]) else (False if vals == [0] and toward[0] != sw["otherwise"] else None)
+        if truth is None or (truth if c[1] == "Ne" else not truth) is not True:
+            continue
+        elem = ("field", ("deref", want_src), "address")
+        if {strip_names(c[2]), strip_names(c[3])} == {elem, ("arg", 2)}:
+            guard = toward[0]
+    if guard is None:
+        return False
+    if not (rem.dominates(guard, steps[0][1]) and rem.dominates(copies[0][0], steps[0][1])):
+        return False
+    # truncate(kept) behind the loop, on every way out
+    tb, tt = truncs[0]
+    if tb in body or strip_names(kit.strip_refs(rem.expr(tt["args"][0], 6, stop={"named"}))) != strip_names(vplace) \
+            or kit.strip_refs(rem.expr(tt["args"][1], 3, stop={"named"}))[:2] != ke[:2]:
+        return False
+    rets = {b for b in rem.live_blocks() if rem.term(b)["k"] == "return"}
+    if rem.reachable(0, avoid={tb}) & rets:
+        return False
+    # the loop is left only when the range is exhausted
+    for x in body:
+        for s_ in succ[x]:
+            if s_ not in body and not (x == th.get("t") or x == head):
+                if rem.term(x)["k"] != "assert":
+                    return False
+    return True
+
+
 def run(ctx):
     prog = ctx.prog
     eff = Effects(prog)
@@ -164,8 +274,8 @@ def run(ctx):
                           "uniqueness are theirs to keep)" % short(n))
     im = BP + "::iter_mut"
     if im in prog.fns:
-        callers = ctx.cg.callers(im)
-        ctx.oblig(not callers, {"iter_mut callers": callers}, "no caller")
+        callers = [c_ for c_ in ctx.cg.callers(im) if c_ not in allowed]          # the list's own writers may walk it mutably
+        ctx.oblig(not callers, {"iter_mut callers": callers}, "no caller outside insert/remove/with_orig")
         for c in callers:
             ctx.violation("iter_mut-caller=%s" % short(c), prog.fns[c].file_line() if c in prog.fns else "-",
                           "`%s` obtains &mut Breakpoint through iter_mut and can change addresses behind the list's back" % short(c))
@@ -376,7 +486,7 @@ def run(ctx):
             e = cf.local_expr(0, 8, stop={"named"})
             ok = keeps_other_addresses(cf, e) == "ne"
     if not ok and not ret:
-        ok = _removal_loop(prog, rem)
+        ok = _removal_loop(prog, rem) or _compaction_loop(prog, rem)
     ctx.oblig(ok, {"remove": "retain(|b| b.address != address)"}, "order-preserving filter")
     if not ok:
         ctx.violation("remove-shape", rem.file_line(), "remove is not a retain(address != given): it may disturb the order or keep the breakpoint")
@@ -484,6 +594,37 @@ def run(ctx):
     for b, i, s in wf.assigns():
         if s["r"]["k"] == "bin" and s["r"]["op"].startswith("Add"):
             adds.append(show(lin(wf.rvalue_expr(s["r"], 6, stop={"named"}))))
+    if not adds:
+        # adaptor forms: `iter_mut().for_each(|b| b.address += orig)` and `into_iter().map(|b| Breakpoint { address: b.address + orig, ..b }).collect()`:
+        # the addition sits in the closure, `orig` is a capture; the closure runs once per element of the whole list (no other adaptor in between)
+        for b, t, c in wf.calls():
+            if not (c and re.search(r"Iterator>?::(for_each|map)$", c) and len(t["args"]) == 2):
+                continue
+            ty0 = (t.get("arg_tys") or [""])[0]
+            if not re.search(r"^(core::slice::iter::IterMut<|alloc::vec::into_iter::IntoIter<)[^>]*Breakpoint>$", ty0):
+                continue
+            ce = kit.strip_refs(wf.expr(t["args"][1], 6))
+            if not (ce[0] == "agg" and ce[1][0] == "closure" and ce[1][1] in prog.fns):
+                continue
+            g = prog.fns[ce[1][1]]
+            caps = ce[2]
+            if kit.loops(g):
+                continue
+            for b2, i2, s2 in g.assigns():
+                if s2["r"]["k"] == "bin" and s2["r"]["op"].startswith("Add"):
+                    e2 = g.rvalue_expr(s2["r"], 8)
+                    sides = [e2[2], e2[3]]
+                    has_addr = any("address" in expr_str(x_) and any(y[0] == "arg" and y[1] == 2 for y in expr_walk(x_)) for x_ in sides)
+                    cap_is_orig = False
+                    for x_ in sides:
+                        for y in expr_walk(x_):
+                            if y[0] == "field" and str(y[2]).isdigit() and int(y[2]) < len(caps):
+                                base = y[1]
+                                while base[0] in ("deref", "ref"):
+                                    base = base[1]
+                                if base[0] == "arg" and base[1] == 1 and any(z[0] == "arg" and z[1] == 2 for z in expr_walk(caps[int(y[2])])):
+                                    cap_is_orig = True
+                    adds.append("address + orig" if has_addr and cap_is_orig else expr_str(e2, 60))
     ctx.oblig(len(adds) == 1 and "orig" in adds[0] and "address" in adds[0], {"with_orig body": adds}, "address += orig, once per element")
     if not (len(adds) == 1 and "orig" in adds[0] and "address" in adds[0]):
         ctx.violation("with_orig-body", wf.file_line(), "with_orig computes %s per breakpoint (expected address + orig)" % adds)
